@@ -10,8 +10,8 @@ extra = {"tlx/container/loser_tree.hpp": {"C05","C06","C07"}, "tlx/algorithm/mul
          "tlx/container/simple_vector.hpp": {"C16"}, "tlx/math/round_to_power_of_two.hpp": {"C20","C16"}}
 keep = '--keep' in sys.argv
 only = [a for a in sys.argv[1:] if a != '--keep']
-for d in sorted(glob.glob('/tmp/refac_C*/R*')):
-    pid = d.split('/')[2].split('_')[1]
+for d in sorted(glob.glob(os.environ.get('REFAC_GLOB', '/tmp/refac_C*/R*'))):
+    pid = d.split('/')[2].split('_')[1]; tagp = d.split('/')[2].split('_')[0]
     if only and pid not in only: continue
     pf = os.path.join(d, 'patch.diff')
     if not os.path.exists(pf): continue
@@ -23,9 +23,10 @@ for d in sorted(glob.glob('/tmp/refac_C*/R*')):
     rcs = re.findall(r'^(C\d+) rc=(\d)', out, re.M)
     if keep and rcs and all(rc == "0" for _, rc in rcs):
         for q, _ in rcs:
-            tgt = '/verif/selftest/%s/silent_refac_%s_%s.patch' % (q, pid, os.path.basename(d))
+            rn = os.path.basename(d) + ('b' if tagp == 'refac2' else 'c' if tagp == 'refac3' else '')
+            tgt = '/verif/selftest/%s/silent_refac_%s_%s.patch' % (q, pid, rn)
             if not os.path.exists(tgt):
-                subprocess.run(['python3', '/verif/tools/keep_refactor.py', q, d, '%s_%s' % (pid, os.path.basename(d))])
+                subprocess.run(['python3', '/verif/tools/keep_refactor.py', q, d, '%s_%s' % (pid, rn)])
     for line in out.strip().splitlines():
         m = re.match(r'(C\d+) rc=(\d)', line)
         tag = "" if m and m.group(2) == "0" else "   <<<<"
